@@ -115,10 +115,11 @@ static void keep_one(World &w, Kept k, size_t cap = 64) { k.session = w.session;
 void World::gather_handles(uint64_t sub) {
     Rng r(sub);
     if (!is_open) return;
-    if (r.chance(1, 5)) {
-        // a program that holds on to everything: handles to every entity of the file (a few hundred at most) are alive at close
+    bool crowd = hoard_next_close; hoard_next_close = false;
+    if (r.chance(1, 5) || crowd) {
+        // a program that holds on to everything: handles to every entity of the file (a few hundred; more after mk_crowd) are alive at close
         try {
-            const size_t cap = 320;
+            const size_t cap = crowd ? 1500 : 320;
             cnt.inc("close.hoarded_handles");
             for (auto &b : f.blocks()) {
                 { Kept k; k.kind = 0; k.block = b; k.id = b.id(); keep_one(*this, k, cap); }
